@@ -93,6 +93,8 @@ def build(spec):
         cand["s"] = lambda: pm.LogNormal("s", 0, 0.5)
         for name in NONLIN:
             if name in spec.get("drop", ()):
+                if spec.get("drop_on_model"):
+                    unit_wrap(name, cand[name]())       # the variable exists on the model, it is just not handed over in `pars`
                 continue
             pars[name] = unit_wrap(name, cand[name]())
         if "K" not in spec.get("drop", ()):
@@ -105,6 +107,10 @@ def build(spec):
         for i in range(poly):
             nm = "v%d" % i
             if nm in spec.get("drop", ()):
+                if spec.get("drop_on_model"):
+                    v_ = linear(nm, 10.0 ** (1 - i))
+                    if not isinstance(v_, float):
+                        unit_wrap(nm, v_)
                 continue
             v = linear(nm, 10.0 ** (1 - i))
             pars[nm] = unit_wrap(nm, v) if not isinstance(v, float) else v
@@ -173,6 +179,9 @@ def run(ctx):
                     attempt(dict(base, drop={nm}), False, "missing-parameter", nm)
                 elif not use_default:
                     attempt(dict(base, drop={nm}), False, "missing-parameter", nm)
+                    if nm in NONLIN or nm.startswith("v"):
+                        # ... also when a variable of that name lives on the model: `pars` is what the caller declares
+                        attempt(dict(base, drop={nm}, drop_on_model=True), False, "missing-parameter-present-on-model", nm)
                 attempt(dict(base, nounit={nm}), False, "missing-unit", nm)
                 if nm != "e":
                     attempt(dict(base, badunit={nm}), False, "inconvertible-unit", nm)
